@@ -1916,8 +1916,12 @@ func (s *BgpServer) handleFSMMessage(peer *peer, e *fsmMsg) {
 		if peer.AdminState() == adminStateDown {
 			peer.fsm.lock.Lock()
 			conf := peer.fsm.pConf.ReadCopy()
+			// keep the address the peer is identified by (peer.ID(), the key of
+			// s.neighborMap): for dynamic and unnumbered neighbors
+			// Config.NeighborAddress is empty
+			neighborAddress := conf.State.NeighborAddress
 			conf.State = oc.NeighborState{}
-			conf.State.NeighborAddress = conf.Config.NeighborAddress
+			conf.State.NeighborAddress = neighborAddress
 			conf.State.PeerAs = conf.Config.PeerAs
 			conf.Timers.State = oc.TimersState{}
 			peer.fsm.pConf.Update(&conf)
